@@ -83,6 +83,18 @@ def main(argv=None):
     pid = args.pid.upper()
     tier = "thorough" if args.tier.startswith("t") else "quick"
     t0 = time.time()
+    import faulthandler, signal
+
+    faulthandler.register(signal.SIGUSR1, all_threads=True)
+    limit = int(os.environ.get("VERIF_TIMEOUT", "900" if tier == "quick" else "7200"))
+    faulthandler.dump_traceback_later(limit, exit=False)
+
+    def _alarm(*_):
+        print(f"INFRA-ERROR property={pid}: time limit of {limit}s exceeded", flush=True)
+        os._exit(2)
+
+    signal.signal(signal.SIGALRM, _alarm)
+    signal.alarm(limit + 5)
     try:
         rc = run(pid, tier, args.seed, args.replay, t0)
     except C.Infra as e:
@@ -104,6 +116,9 @@ def run(pid, tier, seed, replay, t0):
     known = load_known(pid)
     C.EVID.mkdir(exist_ok=True)
     C.REPLAYS.mkdir(exist_ok=True)
+    if not replay:
+        for old in C.REPLAYS.glob(f"{pid}-*.json"):
+            old.unlink()
 
     # ---------------- L1: build + audit -------------------------------------------------------
     ok, log, bt = C.lean_build(chk.build_targets)
